@@ -16,11 +16,23 @@
 
    FRAGMENT (`stage1 (d_allow_extend_merges d) p`):  table descriptions, select_rows, select_columns, drop_columns,
    rename_columns, map_columns, order_rows, project (grouped or not, with the pruning of aggregates and the "keep one aggregate"
-   guard), un-windowed extend INCLUDING the SQL-level extend merge, concat_rows (without id column, or with an id column
-   over sources that are neither an un-windowed extend nor an order_rows without limit: for those the generator goes through
-   the builder's extend merge / order skipping, which is transcribed but not proved), and -- for dialects that do not merge at
-   SQL level -- windowed extend.   NOT covered by the semantic theorems: natural_join (generic and SQLite-rewritten; transcribed,
-   tied structurally and behaviourally, but unproved), windowed extend under SQL-level merging.
+   guard), un-windowed extend INCLUDING the SQL-level extend merge, concat_rows (without id column, or with an id column --
+   also over an un-windowed extend, where the generator's `.extend({id: label})` merges the label into that ExtendNode; NOT
+   over an order_rows without limit, which that builder call skips: the rows then come in another order, transcribed but not
+   proved), and -- for dialects that do not merge at SQL level -- windowed extend.
+   NOT covered by the semantic theorems: natural_join (generic and SQLite-rewritten; transcribed, tied structurally and
+   behaviourally, but unproved -- the attempt exposed finding SQLGEN-join-unused-side-bare-table-ambiguous), windowed extend
+   under SQL-level merging.
+
+   WHICH PROPERTY FILE EACH THEOREM STRENGTHENS
+     SQLGEN_correct_partial, SQLGEN_correct_toplevel_partial   Props/C01.v (SQLite SQL = reference semantics fl_sqlite: the behavioural
+                                      model "the SQL path computes sem_gen fl_sqlite" becomes a theorem about the transcribed generator,
+                                      for the fragment), Props/C02.v (same generator with d_generic; only the dialect record differs),
+                                      Props/C10.v's use (the pruning lemma is what makes `using` sound)
+     SQLGEN_result_columns_partial    Props/C08.v (declared columns for the SQL path)
+     SQLGEN_row_count_partial         Props/C09.v (one row per group / one row without grouping survives pruning in SQL), Props/C08.v
+     SQLGEN_view_names_distinct       Props/C15.v (generated names; all node kinds)
+     SQLGEN_pre_c520ee9_refuted, SQLGEN_pre_6f11e66_refuted    Props/C09.v / Props/C08.v regression witnesses
 
    The list-based SQL semantics fixes one row order; the theorems state EQUALITY of tables (same columns in the same order,
    same rows in the same order), which gives "same multiset of rows" and "same row order after order_rows" a fortiori. *)
@@ -102,16 +114,17 @@ Print Assumptions SQLGEN_view_names_distinct.
 Theorem SQLGEN_pre_c520ee9_refuted :
   option_map (fun t => List.length (rows t)) (sem_gen fl_sqlite rx_p1 rx_env) = Some 1%nat /\
   option_map (fun t => List.length (rows t)) (nsem fl_sqlite rx_q1_pre rx_env) = Some 3%nat /\
-  (exists q n, to_near d_sqlite rx_p1 None 0 = Ok (q, n) /\ nsem fl_sqlite q rx_env = sem_gen fl_sqlite rx_p1 rx_env).
+  match to_near d_sqlite rx_p1 None 0 with Ok (q, _) => nsem fl_sqlite q rx_env = sem_gen fl_sqlite rx_p1 rx_env | _ => False end.
 Proof. exact c520ee9_regression. Qed.
 Print Assumptions SQLGEN_pre_c520ee9_refuted.
 (* 6f11e66: a final order_rows over a stored table with a column its description does not declare: the old step (SELECT * )
    returns the undeclared column, the current one the declared columns only. *)
 Theorem SQLGEN_pre_6f11e66_refuted :
   option_map cols (nsem fl_sqlite rx_q2_pre rx_env_wide) = Some ["a"; "b"; "zz"] /\
-  (exists q n, to_near d_sqlite rx_p2 None 0 = Ok (q, n) /\
-               option_map cols (nsem fl_sqlite q rx_env_wide) = Some (column_names rx_p2) /\
-               nsem fl_sqlite q rx_env = sem_gen fl_sqlite rx_p2 rx_env).
+  match to_near d_sqlite rx_p2 None 0 with
+  | Ok (q, _) => option_map cols (nsem fl_sqlite q rx_env_wide) = Some (column_names rx_p2) /\
+                 nsem fl_sqlite q rx_env = sem_gen fl_sqlite rx_p2 rx_env
+  | _ => False end.
 Proof. exact f6f11e66_regression. Qed.
 Print Assumptions SQLGEN_pre_6f11e66_refuted.
 
@@ -126,18 +139,19 @@ Definition ex_p :=
 Definition ex_env : env := [("t", mktable ["a"; "b"; "c"] [[VNum 1; VNum 2; VStr "u"]; [VNum (-1); VNull; VStr "v"]; [VNum 3; VNum 4; VNull]])].
 Example SQLGEN_guards_satisfiable :
   builder_ok ex_p = true /\ stage1 true ex_p = true /\ wf_env ex_env ex_p /\
-  (exists q n, to_near d_sqlite ex_p None 0 = Ok (q, n) /\
-               nsem fl_sqlite q ex_env = sem_gen fl_sqlite ex_p ex_env /\
-               option_map (fun t => List.length (rows t)) (nsem fl_sqlite q ex_env) = Some 3%nat).
+  match to_near d_sqlite ex_p None 0 with
+  | Ok (q, _) => nsem fl_sqlite q ex_env = sem_gen fl_sqlite ex_p ex_env /\
+                 option_map (fun t => List.length (rows t)) (nsem fl_sqlite q ex_env) = Some 3%nat
+  | _ => False end.
 Proof.
   split; [vm_compute; reflexivity|]. split; [vm_compute; reflexivity|]. split.
   - intros n cs I. simpl in I. exists (mktable ["a"; "b"; "c"] [[VNum 1; VNum 2; VStr "u"]; [VNum (-1); VNull; VStr "v"]; [VNum 3; VNum 4; VNull]]).
     destruct I as [I|[I|[]]]; injection I as <- <-; (split; [reflexivity|split; [reflexivity|repeat constructor]]).
-  - eexists. eexists. split; [vm_compute; reflexivity|]. split; vm_compute; reflexivity.
+  - vm_compute. split; reflexivity.
 Qed.
 (* a windowed extend, for a dialect that does not merge *)
 Definition ex_w := OSelectCols (OExtend ex_t [("r", EOp "cumsum" [ECol "a"])] true (mkwin ["c"] ["b"] ["b"])) ["r"; "c"].
 Example SQLGEN_window_guard_satisfiable :
   builder_ok ex_w = true /\ stage1 false ex_w = true /\
-  (exists q n, to_near d_sqlite_nomerge ex_w None 0 = Ok (q, n) /\ nsem fl_sqlite q ex_env = sem_gen fl_sqlite ex_w ex_env).
-Proof. split; [vm_compute; reflexivity|]. split; [vm_compute; reflexivity|]. eexists. eexists. split; vm_compute; reflexivity. Qed.
+  match to_near d_sqlite_nomerge ex_w None 0 with Ok (q, _) => nsem fl_sqlite q ex_env = sem_gen fl_sqlite ex_w ex_env | _ => False end.
+Proof. split; [vm_compute; reflexivity|]. split; vm_compute; reflexivity. Qed.
